@@ -7,6 +7,7 @@ import (
 	"net/netip"
 	"time"
 
+	"github.com/AdguardTeam/AdGuardDNS/internal/agd"
 	"github.com/AdguardTeam/AdGuardDNS/internal/filter"
 	"github.com/AdguardTeam/golibs/logutil/slogutil"
 )
@@ -21,6 +22,14 @@ func verifEntry() *Entry {
 		ResponseCode: 0,
 		RemoteIP:     netip.MustParseAddr("198.51.100.7"),
 	}
+}
+
+// verifRec is one logged record as the file (or the encoder stub) shows it.
+type verifRec struct {
+	profile, device, fqdn string
+	qtype                 uint16
+	hasIP                 bool
+	ip                    string
 }
 
 func verifRes(kind int) filter.Result {
@@ -66,15 +75,27 @@ func VerifC15ResultCode() {
 // newline-terminated record, also when the pooled buffer held an older record, and
 // an over-long elapsed time saturates.
 //
-//verif:harness name=H15c-file-write tier=quick,thorough bounds="1..3 consecutive writes through one FileSystem with a recycled (dirty) buffer; elapsed time symbolic" reach=done
+//verif:harness name=H15c-file-write tier=quick,thorough bounds="1..3 consecutive writes through one FileSystem with a recycled (dirty) buffer, each for another profile with or without a client address; elapsed time symbolic" reach=done
 //verif:assume in the symbolic build os.OpenFile, File.Write/Close and json.Encoder.Encode are stubs (Encode appends one opaque newline-terminated record to the buffer); atomicity of concurrent O_APPEND writes is the kernel's
 func VerifC15FileWrite() {
 	verifPoolMode(1)
 	path := verifLogPath()
 	l := NewFileSystem(&FileSystemConfig{Logger: slogutil.NewDiscardLogger(), Path: path})
 	n := 1 + verifChoice(3)
+	profiles := []string{"prof0001", "prof0002", "prof0003"}
+	ips := []string{"198.51.100.7", "203.0.113.9", "2001:db8::1"}
+	var withIP [3]bool
 	for i := 0; i < n; i++ {
 		e := verifEntry()
+		// each entry is another profile's, with or without IP logging
+		e.ProfileID = agd.ProfileID(profiles[i])
+		e.RequestType = uint16(1 + i)
+		withIP[i] = verifChoice(2) == 1
+		if withIP[i] {
+			e.RemoteIP = netip.MustParseAddr(ips[i])
+		} else {
+			e.RemoteIP = netip.Addr{}
+		}
 		e.Elapsed = time.Duration(nondetI64())
 		err := l.Write(context.Background(), e)
 		verifAssert("write-succeeds", err == nil)
@@ -83,6 +104,15 @@ func VerifC15FileWrite() {
 			verifAssert("negative-elapsed-becomes-zero", ms == 0)
 		} else if e.Elapsed.Milliseconds() > 4294967295 {
 			verifAssert("elapsed-saturates", ms == 4294967295)
+		}
+	}
+	recs := verifLoggedRecords(path)
+	verifAssert("one-record-per-entry", len(recs) == n)
+	for i := 0; i < n && i < len(recs); i++ {
+		verifAssert("record-describes-its-own-entry", recs[i].profile == profiles[i] && recs[i].qtype == uint16(1+i) && recs[i].fqdn == "example.org.")
+		verifAssert("client-address-present-iff-the-entry-had-one", recs[i].hasIP == withIP[i])
+		if withIP[i] && recs[i].hasIP {
+			verifAssert("client-address-is-the-entry's-own", recs[i].ip == ips[i])
 		}
 	}
 	lines, clean := verifLogLines(path)
